@@ -418,7 +418,10 @@ Fixpoint elem_ops_with (diff : differ) (fuel : nat) (old new : elem) (p : path) 
     else
       do _ <- checkMandatoryIdAttribute old;
       do _ <- checkMandatoryIdAttribute new;
-      if seqb (e_tag old) "SegmentTimeline" then leaflist_changes_with diff old new p
+      if seqb (e_tag old) "SegmentTimeline" then
+        (* since 00916e3 the element's own attributes are diffed first (before: only the S children) *)
+        do lops <- leaflist_changes_with diff old new p;
+        Ok (attr_ops p (e_attrs old) (e_attrs new) ++ lops)
       else if isLeaf old && isLeaf new then Ok (leaf_changes old new p)
       else
         let aops := attr_ops p (e_attrs old) (e_attrs new) in
